@@ -55,6 +55,9 @@ type chunkSpec struct {
 	Mode string `json:"mode"` // "fixed", "random", "full"
 	Size int    `json:"size"`
 	Seed int64  `json:"seed"`
+	// io.Reader allows both: the last bytes together with io.EOF; and an occasional (0, nil)
+	EOFWithData bool `json:"eof_with_data,omitempty"`
+	ZeroReads   bool `json:"zero_reads,omitempty"`
 }
 
 type readLog struct{ N, K int }
@@ -66,6 +69,7 @@ type chunkReader struct {
 	spec chunkSpec
 	rng  *rand.Rand
 	log  []readLog
+	zero bool // the previous Read returned (0, nil)
 }
 
 func newChunkReader(data []byte, spec chunkSpec) *chunkReader {
@@ -81,6 +85,12 @@ func (c *chunkReader) Read(p []byte) (int, error) {
 		c.log = append(c.log, readLog{len(p), 0})
 		return 0, io.EOF
 	}
+	if c.spec.ZeroReads && !c.zero && c.rng.Intn(5) == 0 {
+		c.zero = true
+		c.log = append(c.log, readLog{len(p), 0})
+		return 0, nil
+	}
+	c.zero = false
 	k := len(p)
 	switch c.spec.Mode {
 	case "fixed":
@@ -100,10 +110,19 @@ func (c *chunkReader) Read(p []byte) (int, error) {
 	copy(p, c.data[c.pos:c.pos+k])
 	c.pos += k
 	c.log = append(c.log, readLog{len(p), k})
+	if c.spec.EOFWithData && c.pos == len(c.data) {
+		return k, io.EOF
+	}
 	return k, nil
 }
 
 func genChunk(r *kit.Rng) chunkSpec {
+	cs := genChunkSize(r)
+	cs.EOFWithData = r.Chance(0.25)
+	return cs
+}
+
+func genChunkSize(r *kit.Rng) chunkSpec {
 	switch r.Pick(6) {
 	case 0:
 		return chunkSpec{Mode: "fixed", Size: 1}
@@ -236,6 +255,52 @@ func genRecords(r *kit.Rng, allowBig bool) ([]gen.ResultSpec, string) {
 		}
 	}
 	return rs, profile
+}
+
+var boundaryTargets = []int{4095, 4096, 4097, 8191, 8192, 8193, 12288, 65535, 65536, 65537, 131072}
+
+// fitBoundary pads the attack name of record `pos` so that the encoded stream up to and including that
+// record — or, for a later record, half of the time the record's own line / message — is exactly `target`
+// bytes long (4096·k and 65536 and their neighbours: buffer edges of bufio readers and scanners).
+// Returns false if no fit was found.
+func fitBoundary(rs []gen.ResultSpec, pos int, enc string, r *kit.Rng) (int, bool) {
+	rs[pos].Attack = "a"
+	before := 0
+	if pos > 0 && r.Chance(0.5) {
+		// fit the record's own encoded length (line / message) instead of the end offset in the stream
+		before = len(encodeAll(enc, toResults(rs[:pos])))
+	}
+	prefixLen := func() int { return len(encodeAll(enc, toResults(rs[:pos+1]))) - before }
+	l0 := prefixLen()
+	var cands []int
+	for _, t := range boundaryTargets {
+		if t > l0+4 {
+			cands = append(cands, t)
+		}
+	}
+	if len(cands) == 0 {
+		return 0, false
+	}
+	target := cands[r.Pick(len(cands))]
+	if r.Chance(0.5) { // the nearest edge: its three neighbours equally often
+		target = cands[r.Pick(min(3, len(cands)))]
+	}
+	for iter := 0; iter < 8; iter++ {
+		l := prefixLen()
+		switch {
+		case l == target:
+			return target, true
+		case l < target:
+			rs[pos].Attack += strings.Repeat("a", target-l)
+		default:
+			if over := l - target; over < len(rs[pos].Attack) {
+				rs[pos].Attack = rs[pos].Attack[:len(rs[pos].Attack)-over]
+			} else {
+				return 0, false
+			}
+		}
+	}
+	return 0, false
 }
 
 // drainCompare decodes len(want)+2 times and checks the sequence, then io.EOF twice.
@@ -729,6 +794,9 @@ type chainCase struct {
 	Records []gen.ResultSpec `json:"records"`
 	Start   string           `json:"start"`
 	Chain   []string         `json:"chain"`
+	// a record that the JSON encoder refuses (year > 9999, gob carries it): a step to JSON may fail —
+	// but if the command reports success, its output must still decode to the original sequence
+	MayFail bool `json:"may_fail,omitempty"`
 }
 
 func allChains(maxLen int) [][]string {
@@ -772,18 +840,29 @@ func runChains(c *run.Ctx, s *kit.Summary, cases []chainCase) {
 			prev = out
 		}
 	}
-	outs, err := kit.RunVegeta(c.Vegeta, ops)
+	outs, hungAt, err := gen.RunVegetaGuarded(c.Vegeta, ops, 90*time.Second)
 	if err != nil {
 		s.Diverge("chains", "(vegeta-verif failure)", "", err.Error())
 		return
 	}
+	if hungAt >= 0 {
+		s.Violate(kit.Violation{Kind: "chain_encode_hung", What: "encode command did not return within 90 s", Input: cases[steps[hungAt].ci]})
+		for len(outs) < len(steps) {
+			outs = append(outs, "not-run")
+		}
+	}
 	failed := map[int]bool{}
 	for i, st := range steps {
 		cc := cases[st.ci]
-		if failed[st.ci] {
+		if failed[st.ci] || outs[i] == "not-run" {
 			continue
 		}
 		key := map[string]interface{}{"chain": strings.Join(cc.Chain, ">"), "start": cc.Start, "step": st.k + 1}
+		if outs[i] != "ok" && cc.MayFail && cc.Chain[st.k] == "json" {
+			s.Count("chain:unencodable_record_rejected")
+			failed[st.ci] = true
+			continue
+		}
 		if outs[i] != "ok" {
 			msg := outs[i]
 			if f := strings.Fields(msg); len(f) == 2 {
@@ -837,7 +916,7 @@ func runFirstBytes(c *run.Ctx, s *kit.Summary, r *kit.Rng) {
 
 func runC08(c *run.Ctx, s *kit.Summary) {
 	r := kit.NewRng(c.Seed)
-	s.Rule = "detect: gob/CSV/JSON streams of 1…50 heterogeneous intersection-domain records (profiles small, big-first, big-later, big-all with bodies 3000…170000 bytes, plain-first) through readers with chunk sizes 1, 7, 4096, other fixed sizes, random, full; garbage (in child processes): random bytes, texts, mutated/truncated/spliced streams, two gob streams announcing a huge map (fatal inside encoding/gob, counted as skipped); model: the DecoderFor loop rebuilt from the io primitives with real and with scripted decoders, every read compared with the Lean reader algebra; chains: every chain over {gob,csv,json} of length 1…4 through the in-process encode command; non-trivial = stream with ≥ 2 records or a chain or a scripted run with ≥ 2 trials"
+	s.Rule = "detect: gob/CSV/JSON streams of 1…50 heterogeneous intersection-domain records (profiles small, big-first, big-later, big-all with bodies 3000…170000 bytes, plain-first) through readers with chunk sizes 1, 7, 4096, other fixed sizes, random, full, with the last bytes delivered together with io.EOF and with occasional (0, nil) reads, and with one record ending exactly on / next to a 4096·k or 65536 edge of the stream or having exactly that encoded length; garbage (in child processes): random bytes, texts, mutated/truncated/spliced streams, two gob streams announcing a huge map (fatal inside encoding/gob, counted as skipped); model: the DecoderFor loop rebuilt from the io primitives with real and with scripted decoders, every read compared with the Lean reader algebra; chains: every chain over {gob,csv,json} of length 1…4 through the in-process encode command, plus chains carrying a record the JSON encoder refuses (year > 9999: the step may fail, but a reported success must still decode to the original); command level: encode/report over argument lists containing a file in none of the formats must not report success (nor hang); non-trivial = stream with ≥ 2 records or a chain or a scripted run with ≥ 2 trials"
 	if c.Replay != "" {
 		replay(c, s)
 		return
@@ -853,6 +932,27 @@ func runC08(c *run.Ctx, s *kit.Summary) {
 		sc := streamCase{Enc: encodings[r.Pick(3)], Records: rs, Chunk: genChunk(r)}
 		if profile == "big-all" && len(rs) > 2 && sc.Chunk.Mode == "fixed" && sc.Chunk.Size <= 3 && !r.Chance(0.25) {
 			sc.Chunk.Size = 7 // byte-wise reading of several big records only now and then (run time)
+		}
+		if (profile == "small" || profile == "plain-first") && r.Chance(0.35) {
+			// the end of one record exactly on / next to a buffer edge of the stream
+			pos := 0
+			if len(rs) > 1 && r.Chance(0.5) {
+				pos = 1 + r.Pick(len(rs)-1)
+			}
+			if t, ok := fitBoundary(rs, pos, sc.Enc, r); ok {
+				profile = "boundary"
+				s.Count(fmt.Sprintf("detect:boundary=%d", t))
+				s.Count(fmt.Sprintf("detect:boundary_first_record=%v", pos == 0))
+			}
+		}
+		if sc.Chunk.Mode != "full" && r.Chance(0.15) {
+			sc.Chunk.ZeroReads = true
+		}
+		if sc.Chunk.EOFWithData {
+			s.Count("detect:reader_eof_with_data")
+		}
+		if sc.Chunk.ZeroReads {
+			s.Count("detect:reader_zero_reads")
 		}
 		runDetect(sc, s)
 		s.Case(fmt.Sprintf("detect:%d", i), len(rs) >= 2)
@@ -925,7 +1025,123 @@ func runC08(c *run.Ctx, s *kit.Summary) {
 			batch = batch[:0]
 		}
 	}
+	// records the JSON encoder refuses, carried by gob
+	var far []chainCase
+	for _, ch := range [][]string{{"json"}, {"gob"}, {"gob", "json"}, {"gob", "gob", "json", "gob"}, {"json", "csv"}} {
+		rs, _ := genRecords(r, false)
+		for len(rs) < 3 {
+			rs = append(rs, gen.InterResult(r, uint64(100+len(rs)), -1))
+		}
+		rs = rs[:3+r.Pick(len(rs)-2)]
+		rs[1+r.Pick(len(rs)-1)].FarYear = 10000 + r.Pick(5000)
+		far = append(far, chainCase{Records: rs, Start: "gob", Chain: ch, MayFail: true})
+		s.Count("chain:with_unencodable_record")
+	}
+	runChains(c, s, far)
 	phase("chains")
+	runCLIGarbage(c, s, r)
+	phase("cli-garbage")
+}
+
+/* ---------- command level: a file in none of the formats among the inputs ---------- */
+
+type cliGarbageCase struct {
+	Good    [][]gen.ResultSpec `json:"good"`     // well-formed files (their encodings in GoodEnc)
+	GoodEnc []string           `json:"good_enc"`
+	Bad     []byte             `json:"bad"`      // contents of the file that is in none of the formats
+	BadAt   int                `json:"bad_at"`   // its position among the arguments
+	Command string             `json:"command"`  // "encode" or "report"
+}
+
+// runCLIGarbage: `decoder(files)` must refuse a file whose encoding cannot be detected ("nil means
+// unknown encoding"): a command that reports success has used a wrong decoder or dropped the file silently.
+func runCLIGarbage(c *run.Ctx, s *kit.Summary, r *kit.Rng) {
+	var cases []cliGarbageCase
+	for i := 0; i < c.N(40, 600); i++ {
+		var bad []byte
+		how := ""
+		switch r.Pick(4) {
+		case 0:
+			how = "text"
+			bad = []byte(r.PickStr([]string{"hello world\n", "GET http://localhost/\n", "1,2,3\n", "[]\n", "x,2,3,4,5,6,,8,9,10,11,\n",
+				"{\"seq\":\"x\"}\n", "-\n", "\n\n", "not a result file", "{\"attack\":", "1700000000000000000,200,1"}))
+		case 1:
+			how = "printable"
+			bad = make([]byte, 1+r.Pick(200))
+			for j := range bad {
+				bad[j] = byte(32 + r.Pick(95))
+			}
+		default:
+			how = "truncated-first-record"
+			rs, _ := genRecords(r, false)
+			d := encodeAll(encodings[r.Pick(3)], toResults(rs[:1]))
+			bad = d[:1+r.Pick(len(d)-2)]
+		}
+		if firstAccepting(bad) >= 0 {
+			s.Count("cli-garbage:skipped_parses_by_chance")
+			continue
+		}
+		cc := cliGarbageCase{Bad: bad, Command: r.PickStr([]string{"encode", "report"})}
+		ngood := r.Pick(4)
+		for g := 0; g < ngood; g++ {
+			rs, _ := genRecords(r, false)
+			if len(rs) > 5 {
+				rs = rs[:5]
+			}
+			cc.Good = append(cc.Good, rs)
+			cc.GoodEnc = append(cc.GoodEnc, encodings[r.Pick(3)])
+		}
+		cc.BadAt = r.Pick(ngood + 1)
+		cases = append(cases, cc)
+		s.Count("cli-garbage:" + how)
+		s.Count(fmt.Sprintf("cli-garbage:good_files=%d", ngood))
+	}
+	execCLIGarbage(c, s, cases, r)
+}
+
+func execCLIGarbage(c *run.Ctx, s *kit.Summary, cases []cliGarbageCase, r *kit.Rng) {
+	dir := filepath.Join(c.Work, "cligarbage")
+	if err := os.MkdirAll(dir, 0o755); err != nil {
+		panic(err)
+	}
+	defer os.RemoveAll(dir)
+	var ops []string
+	for i, cc := range cases {
+		var files []string
+		for g := 0; g <= len(cc.Good); g++ {
+			if g == cc.BadAt {
+				f := filepath.Join(dir, fmt.Sprintf("g%d_bad", i))
+				os.WriteFile(f, cc.Bad, 0o644)
+				files = append(files, kit.HexS(f))
+			}
+			if g < len(cc.Good) {
+				f := filepath.Join(dir, fmt.Sprintf("g%d_%d.%s", i, g, cc.GoodEnc[g]))
+				os.WriteFile(f, encodeAll(cc.GoodEnc[g], toResults(cc.Good[g])), 0o644)
+				files = append(files, kit.HexS(f))
+			}
+		}
+		out := filepath.Join(dir, fmt.Sprintf("g%d_out", i))
+		if cc.Command == "encode" {
+			ops = append(ops, "encode "+kit.HexS(encodings[r.Pick(3)])+" "+kit.HexS(out)+" "+strings.Join(files, " "))
+		} else {
+			ops = append(ops, "report "+kit.HexS("json")+" 0 - "+kit.HexS(out)+" "+strings.Join(files, " "))
+		}
+	}
+	outs, hungAt, err := gen.RunVegetaGuarded(c.Vegeta, ops, 60*time.Second)
+	if err != nil {
+		s.Diverge("cli-garbage", "(vegeta-verif failure)", "", err.Error())
+		return
+	}
+	if hungAt >= 0 {
+		s.Violate(kit.Violation{Kind: "cli_undetectable_file_hung", What: cases[hungAt].Command + " over a file in none of the formats did not return within 60 s instead of reporting the undetectable encoding", Input: cases[hungAt]})
+	}
+	for i := range outs {
+		s.Case(fmt.Sprintf("cli-garbage:%d", i), true)
+		if outs[i] == "ok" {
+			s.Violate(kit.Violation{Kind: "cli_undetectable_file_accepted", What: cases[i].Command + " reported success although one input file is in none of the formats (no format's decoder accepts a first record from it)",
+				Input: cases[i], Expected: "an error naming the file whose encoding cannot be detected", Observed: "ok"})
+		}
+	}
 }
 
 func clip(x string) string {
@@ -953,6 +1169,12 @@ func replay(c *run.Ctx, s *kit.Summary) {
 	_ = json.Unmarshal(rec.Input, &probe)
 	s.Case("replay", true)
 	switch {
+	case probe["bad"] != nil:
+		var cc cliGarbageCase
+		if err := json.Unmarshal(rec.Input, &cc); err != nil {
+			panic(err)
+		}
+		execCLIGarbage(c, s, []cliGarbageCase{cc}, kit.NewRng(c.Seed))
 	case probe["chain"] != nil:
 		var cc chainCase
 		if err := json.Unmarshal(rec.Input, &cc); err != nil {
